@@ -1,4 +1,4 @@
-package main
+package sw
 
 import (
 	"fmt"
@@ -149,10 +149,19 @@ func genSearchWorld(rng *rand.Rand, label string, nPN int, tiedTimes bool, exoti
 	}
 	seq := 0
 	tiedPool := []time.Time{base, base.Add(time.Hour), base.Add(time.Hour + 500*time.Millisecond), base.Add(48 * time.Hour)}
+	// dates are tied ACROSS permanodes only: within one permanode all claim dates are distinct
+	// (the docs say nothing about ties within a permanode)
+	usedByPN := map[string]bool{}
+	curPN := ""
 	nextDate := func() time.Time {
 		seq++
 		if tiedTimes {
-			return tiedPool[rng.Intn(len(tiedPool))]
+			d := tiedPool[rng.Intn(len(tiedPool))]
+			for usedByPN[curPN+d.String()] {
+				d = d.Add(time.Second)
+			}
+			usedByPN[curPN+d.String()] = true
+			return d
 		}
 		d := base.Add(time.Duration(seq) * 3701 * time.Second)
 		if rng.Intn(3) == 0 {
@@ -161,6 +170,7 @@ func genSearchWorld(rng *rand.Rand, label string, nPN int, tiedTimes bool, exoti
 		return d
 	}
 	claim := func(kind string, pn blob.Ref, attr, val string) {
+		curPN = pn.String()
 		d := nextDate()
 		cb := w.owner.Claim(kind, pn, attr, val, d)
 		if _, dup := w.typ[cb.Ref]; dup {
@@ -231,6 +241,7 @@ func genSearchWorld(rng *rand.Rand, label string, nPN int, tiedTimes bool, exoti
 	// deleted permanodes (delete claims on permanodes only; claim deletions are C07's subject)
 	for i, pn := range w.pns {
 		if i%5 == 4 {
+			curPN = pn.String()
 			d := nextDate()
 			db := w.owner.Delete(pn, d)
 			w.add(db, "claim")
